@@ -335,6 +335,67 @@ def replay(payload):
     return False, "not reproduced"
 
 
+# ------------------------------------------------------------------ crash-point enumeration (thorough tier)
+def crashpoint_sweep(seed, run, max_steps=600):
+    """COMPLETE enumeration, for one read event of one run, of every LINE step of that read as the point where
+    an asynchronous exception is injected; afterwards every object of the population must equal its rebuild and
+    the same read, performed again, must return the reference value."""
+    L = lib.get()
+    b = build(seed, run)
+    if b["discard"]:
+        return None
+    program, n1, n2, st = b["program"], b["n1"], b["n2"], b["knobs"]["share_tables"]
+    rr = random.Random(gen.derive_seed(seed, run, 0x5EE9))
+    cands = [i for i in range(n1, n2) if program[i]["mode"] in ("sql", "par", "str", "sql_flags", "par_own")]
+    if not cands:
+        return None
+    env0 = engine.execute(program[:n1], share_tables=st)
+    msim = sched.Sim(program[:n2], {i: 0 for i in range(n2)}, sched.ReplayDecider([]), share_tables=st, env=env0)
+    msim.run()
+    cands = [i for i in cands if 10 <= msim.op_len.get(i, 0) <= max_steps]
+    if not cands:
+        return None
+    r = cands[rr.randrange(len(cands))]
+    sub = program[:n1] + [dict(program[r]), dict(program[r])]
+    i1, i2 = n1, n1 + 1
+    okw = {"ctx_names": sorted(rr.sample(L.CTX_NAMES, 2)), "light": True}
+    env1 = engine.execute(sub[:n1], share_tables=st)
+    m2 = sched.Sim(sub[: n1 + 1], {i: 0 for i in range(n1 + 1)}, sched.ReplayDecider([]), share_tables=st, env=env1)
+    m2.run()
+    steps = m2.op_len.get(i1, 0)
+    refs = {i: engine.reference_obs(sub, i, st, **okw) for i in range(len(sub))}
+    viol = []
+    fired = 0
+    for sstep in range(1, steps + 1):
+        env = engine.execute(sub[:n1], share_tables=st)
+        sim = sched.Sim(sub, {i: 0 for i in range(len(sub))}, sched.ReplayDecider([]), share_tables=st,
+                        faults=[{"op": i1, "step": sstep, "kind": "async_exc"}], env=env)
+        env = sim.run()
+        fired += sim.fired.get("async_exc", 0)
+        for i in range(len(sub)):
+            v = env.heap[i]
+            if isinstance(v, lang.Skipped) or (isinstance(v, lang.Failed) and v.injected):
+                continue
+            a = engine.slot_obs(env, i, **okw)
+            d = obs.diff(a, refs[i])
+            if d:
+                target = engine._deref(env, sub[i1]["o"])
+                sig = f"{PROP}:fault:crashpoint:{stmt_label(L, target) if is_object_slot(target) else '?'}"
+                viol.append((sig, {"property": PROP, "seed": seed, "run": run, "share_tables": st, "program": sub,
+                                   "victim": i, "n1": n1, "n2": len(sub), "okw": okw, "signature": sig,
+                                   "config": "seq-fault", "differs_on": d[:8],
+                                   "plan": {"gran": "LINE", "assign": {str(j): 0 for j in range(len(sub))},
+                                            "mean_q": 1 << 20, "stall": None,
+                                            "faults": [{"op": i1, "step": sstep, "kind": "async_exc"}]},
+                                   "trace": [], "observed": {k: a.get(k) for k in d[:2]},
+                                   "expected": {k: refs[i].get(k) for k in d[:2]},
+                                   "hashseed": os.environ.get("PYTHONHASHSEED", "random")}, run))
+                break
+        if viol:
+            break
+    return {"steps": steps, "fired": fired, "violations": viol}
+
+
 # ------------------------------------------------------------------ hash-seed restart oracle
 def seq_values(seed, run):
     """Per-slot plain values of the sequential execution of one run (hash values excluded)."""
@@ -473,6 +534,15 @@ def batch(task):
         fold(agg, res, program)
         if len(agg["violations"]) >= 12:
             break
+    if task.get("tier") == "thorough":
+        for run in range(lo, min(hi, lo + 3)):
+            sw = crashpoint_sweep(seed, run)
+            if sw is not None:
+                agg["sweeps"] += 1
+                agg["crashpoints"] += sw["steps"]
+                agg["fired"]["async_exc_crashpoint_sweep"] += sw["fired"]
+                agg["violations"].extend(sw["violations"])
+                break
     # restart oracle on a deterministic subset of this batch's runs
     k = max(1, int((hi - lo) * tier["hashseed_frac"]))
     sub = list(range(lo, hi))[:k]
@@ -491,7 +561,7 @@ def new_agg():
             "steps": 0, "switches": 0, "fired": collections.Counter(), "overlap": 0, "same_obj_overlap": 0,
             "shapes": set(), "nontrivial_shapes": set(), "configs": collections.Counter(), "samples": [],
             "schedules": set(), "preempt_in_lib": 0, "modes": collections.Counter(), "labels": collections.Counter(),
-            "hashseed_compared": 0, "fault_runs": 0}
+            "hashseed_compared": 0, "fault_runs": 0, "sweeps": 0, "crashpoints": 0}
 
 
 def fold(agg, res, program):
@@ -578,6 +648,8 @@ def evidence(agg, tier, seed, wall):
         "faults_fired": dict(agg["fired"]),
         "runs_with_a_fired_fault": agg["fault_runs"],
         "runs_compared_across_interpreters_with_other_PYTHONHASHSEED": agg["hashseed_compared"],
+        "complete_crashpoint_sweeps_of_one_read_event": agg["sweeps"],
+        "crash_points_enumerated_in_those_sweeps": agg["crashpoints"],
         "discarded_runs": agg["discards"],
         "builder_history_mismatches_attributed_to_C01_not_C02": agg["not_c02"],
         "components": {"real": ["pypika_tortoise (whole package, imported from the repo working tree)"],
